@@ -211,3 +211,60 @@ def info(tier):
                      'bounds': {'shapes': 'N<=%d within the fragment' % (4 if tier == 'quick' else 5), 'constraints': '1-2 trees of depth<=1 per model + sampled depth-2 trees'},
                      'stubs': []},
     }
+
+
+# -- E1: the name quantifier (see c10: the export of a model with a symbolic feature / attribute name is the
+# placeholder export with the name substituted, so the z3 verdict on the placeholder program carries over to
+# every name the Clafer subset reads as one identifier that is not a keyword) -------------------------------
+CLAFER_WORDS = ['abstract', 'xor', 'or', 'mux', 'opt', 'not', 'if', 'then', 'else', 'in', 'all', 'no', 'one', 'lone', 'some', 'this', 'parent',
+                'integer', 'int', 'string', 'double', 'boolean', 'real', 'enum', 'sum', 'product', 'max', 'min', 'AttributedFeature', 'CP']
+
+
+def _name_model(shape, pos, name, attr_name):
+    from .c10 import NAME_TREES, _ren
+    n = R.n_features(shape)
+    names = ['F%d' % i for i in range(n)]
+    names[pos] = name
+    mp = {'F%d' % i: names[i] for i in range(n)}
+    trees = [_ren(t, mp) for t in NAME_TREES if all(int(x[1:]) < n for x in R.tree_names(t))]
+    cards = [((1, 1) if len(cs) == 1 else (1, len(cs))) if i % 2 == 0 else ((0, 1) if len(cs) == 1 else (1, 1)) for i, (_, cs) in enumerate(R.relations_of(shape))]
+    m = R.build(shape, cards, names=names, ctcs=[R.ctc('c%d' % i, t) for i, t in enumerate(trees)])
+    feats = _index(m)
+    feats[pos].add_attribute(Attribute(attr_name, None, 3, None))
+    feats[0].add_attribute(Attribute('flag', None, True, None))
+    return m
+
+
+def name_commutes(shape, pos, name, as_attribute) -> bool:
+    from crosshair.tracers import NoTracing
+    from .c10 import PLACEHOLDER, _subst_equal
+    fname, aname = (('F%d' % pos, name) if as_attribute else (name, 'cost'))
+    m = _name_model(shape, pos, fname, aname)
+    with NoTracing():
+        tmpl = ClaferWriter(None, _name_model(shape, pos, 'F%d' % pos if as_attribute else PLACEHOLDER, PLACEHOLDER if as_attribute else 'cost')).transform()
+    text = ClaferWriter(None, m).transform()
+    return _subst_equal(text, tmpl, name)
+
+
+def conditions(tier, seed):
+    from ..runner import Cond
+    from .common import indexed_shapes
+    from .c10 import IDENT_CHARS
+    conds = []
+    L = 3 if tier == 'quick' else 4
+    for si, shape in indexed_shapes(4, 3, siblings=False):
+        if not in_fragment_shape(shape):
+            continue
+        n = R.n_features(shape)
+        for as_attr in (0,):       # attribute names are keys of a dict in attributes_definition (hashing realises them: measured, no verdict): native lists only
+            pos = 1 + (si + seed) % (n - 1)       # never the root: with the symbolic name on the root no verdict was reached (measured); root names by the native lists
+            others = (['F%d' % i for i in range(n) if i != pos] if not as_attr else ['flag']) + CLAFER_WORDS
+            conds.append(Cond(
+                name='c11_name_%s_%d' % ('attr' if as_attr else 'feat', si), imports='from fmverif.props import c11 as P\nSHAPE_%d = %r\n' % (si, shape), params='name: str',
+                pre=['1 <= len(name) <= %d' % L, 'all(c in %r for c in name)' % IDENT_CHARS, 'name[0] not in "0123456789"',
+                     'all(len(name) != len(o) or name != o for o in %r)' % (others,)],
+                body='P.name_commutes(SHAPE_%d, %d, name, %d)' % (si, pos, as_attr), timeout=60 if tier == 'quick' else 200,
+                aspect='Clafer export with a symbolic %s name == placeholder export with the name substituted (declarations, attribute block, constraints)' % ('attribute' if as_attr else 'feature'),
+                sample={'shape': R.shape_str(shape), 'symbolic': ('name of an attribute of F%d' if as_attr else 'name of F%d') % pos},
+                validate=[('AND',), ('Or',), ('x',), ('XOR',), ('NOT',), ('F',)]))
+    return conds
